@@ -59,7 +59,9 @@ def run_impose(rng, obs):
     which = rng.choice(['impose_mean', 'impose_variance', 'impose_std', 'impose_spread', 'normalize', 'impose_sum',
                         'impose_weight_norm', 'impose_moment'])
     sup = R.support(x, w) if w else x
-    if len(set(sup)) < 2:
+    # well-conditioned inputs only: the supported points must be spread by more than rounding noise relative to their magnitude
+    # (two supported points 1e-5 apart at 1000 leave ~8 digits for any variance)
+    if len(set(sup)) < 2 or R.spread(sup) < 1e-4 * max(1.0, max(abs(v) for v in sup)):
         x[0] += 1.0; x[-1] -= 2.0
         if w: w[0] = w[-1] = 1.0
     obs.desc = {'f': which, 'x': x, 'w': w}
